@@ -6,6 +6,8 @@ import (
 	"fmt"
 	"math/rand"
 	"os"
+	"runtime/debug"
+	"strings"
 	"time"
 
 	"verif/harness/internal/fw"
@@ -36,7 +38,22 @@ func main() {
 		}
 	}
 	t0 := time.Now()
-	r(ctx)
+	func() {
+		// a panic that escapes a property runner comes out of a library call the runner did not expect to panic
+		// (a client-side API such as UpdateElementProof, a constructor, an encoder): report it as a violation with
+		// the stack instead of dying, so that the findings collected so far are kept
+		defer func() {
+			if p := recover(); p != nil {
+				stack := string(debug.Stack())
+				if len(stack) > 3000 {
+					stack = stack[:3000]
+				}
+				ctx.Res.Violate(fw.Violation{Key: strings.ToLower(*prop) + "-panic-in-library-call", What: fmt.Sprintf("a library call made by the %s check panicked: %v", *prop, p),
+					Replay: map[string]any{"panic": fmt.Sprint(p), "stack": stack, "seed": *seed, "tier": *tier}, Expected: "no panic", Observed: fmt.Sprint(p)})
+			}
+		}()
+		r(ctx)
+	}()
 	res := ctx.Res
 	if res.Disagreements == nil {
 		res.Disagreements = []fw.Disagreement{}
